@@ -95,15 +95,26 @@ def r3_conversions(rep, facts):
     R = rep.rule('C08/R3', 'conversions between inline and standard forms move the item storage wholesale and convert every element', floor=6)
 
     def moves_field(b, field, ctor_seg):
+        from .shared import local_origins
+        orig = local_origins(b['body'])
+
+        def src(x):
+            # the expression a local stands for (`let mut tables = a.values; .. aot.values = tables`)
+            x = peel(x)
+            hops = 0
+            while x.get('k') == 'path' and x.get('res') == 'Local' and x.get('path') in orig and hops < 4:
+                x = peel(orig[x['path']])
+                hops += 1
+            return x
         for n in calls_in(b['body']):
             if n.get('k') == 'call' and last_seg((peel(n.get('f', {})).get('path') or '')) == ctor_seg:
                 for a in n.get('args', []):
-                    a = peel(a)
+                    a = src(a)
                     if a.get('k') == 'field' and a.get('name') == field and peel(a['base']).get('res') == 'Local':
                         return True
         for n in walk(b['body']):
             if n.get('k') == 'assign':
-                l, r = peel(n['lhs']), peel(n['rhs'])
+                l, r = peel(n['lhs']), src(n['rhs'])
                 if l.get('k') == 'field' and l.get('name') == field and r.get('k') == 'field' and r.get('name') == field:
                     return True
         return False
@@ -140,10 +151,43 @@ def r3_conversions(rep, facts):
                         if x.get('k') == 'mcall' and x.get('name') == meth:
                             return cond_depth(a['body'], x, 0) == 0
         return False
+    # Item::into_array_of_tables, decided on its results for arrays of 0..2 elements of both kinds (evaluated with make_item recorded): Ok exactly
+    # for non-empty arrays of inline tables, with the elements kept in order and each converted once; otherwise the item comes back unchanged
+    aot_done = False
+    try:
+        from .den import RecInterp as _RI, Unanalysable as _UN, EvalPanic as _EP
+        bb = facts.body('toml_edit::item::Item::into_array_of_tables')
+        IT = lambda i: ('ctor', 'toml_edit::item::Item::Value', (('ctor', 'toml_edit::value::Value::InlineTable', (('it', i),)),))
+        INT = lambda i: ('ctor', 'toml_edit::item::Item::Value', (('ctor', 'toml_edit::value::Value::Integer', (('int', i),)),))
+        bad = []
+        for elems in ([], [IT(0)], [IT(0), IT(1)], [IT(0), IT(1), IT(2)], [INT(0)], [IT(0), INT(1)], [INT(0), IT(1)]):
+            it = _RI(Evaluator(facts), {'make_item'})
+            arr = ('struct', 'toml_edit::array::Array', {'values': tuple(elems), 'trailing_comma': False, 'trailing': ('opaque',), 'decor': ('opaque',), 'span': ('opaque',)})
+            node = ('ctor', 'toml_edit::item::Item::Value', (('ctor', 'toml_edit::value::Value::Array', (arr,)),))
+            r = it.apply_fn(bb, [node])
+            want_ok = bool(elems) and all(e[2][0][1].endswith('InlineTable') for e in elems)
+            shape = ''.join('t' if e[2][0][1].endswith('InlineTable') else 'v' for e in elems) or 'empty'
+            is_ok = isinstance(r, tuple) and r[:2] == ('ctor', 'core::result::Result::Ok')
+            if is_ok != want_ok:
+                bad.append(f'[{shape}] -> {"Ok" if is_ok else "Err"}')
+            elif is_ok:
+                vals = r[2][0][2].get('values') if isinstance(r[2][0], tuple) and r[2][0][0] == 'struct' else None
+                n_conv = sum(1 for nm, _ in it.calls if nm == 'make_item')
+                if vals != tuple(elems) or n_conv != len(elems):
+                    bad.append(f'[{shape}] -> Ok with {len(vals) if vals is not None else "?"} of {len(elems)} elements, {n_conv} converted')
+            elif r[2][0] != node:
+                bad.append(f'[{shape}] -> Err does not hand the item back')
+        rep.check(R, 'toml_edit::item::Item::into_array_of_tables|table', not bad, '7 arrays: Ok <=> non-empty and all inline tables; elements kept in order, each converted once',
+                  f'`Item::into_array_of_tables`: {"; ".join(bad[:3])} (only non-empty arrays of inline tables convert, keeping every element)', facts.loc(bb))
+        aot_done = True
+    except (_UN, _EP, KeyError, IndexError, TypeError) as e:
+        rep.notes.append(f'Item::into_array_of_tables could not be evaluated ({e}); read structurally.')
     for d, field, ctor, each in (('toml_edit::table::Table::into_inline_table', 'items', 'with_pairs', 'make_value'),
                                  ('toml_edit::inline_table::InlineTable::into_table', 'items', 'with_pairs', None),
                                  ('toml_edit::array_of_tables::ArrayOfTables::into_array', 'values', 'with_vec', 'make_value'),
                                  ('toml_edit::item::Item::into_array_of_tables', 'values', None, 'make_item')):
+        if aot_done and d.endswith('into_array_of_tables'):
+            continue
         b = facts.body(d)
         mv = moves_field(b, field, ctor or '')
         rep.check(R, d + '|moves-storage', mv, f'`{field}` moved wholesale', f'`{d}` does not move `{field}` wholesale into the new container (entries could be lost or re-ordered)', facts.loc(b))
@@ -151,6 +195,8 @@ def r3_conversions(rep, facts):
             rep.check(R, d + '|converts-each', converts_each(b, each), f'{each} on every element', f'`{d}` does not call {each} on every element unconditionally (an element that stays in its old form is not printable in the new container and is silently dropped)', facts.loc(b))
     b = facts.body('toml_edit::item::Item::into_array_of_tables')
     guards = [n.get('name') for n in walk(b['body']) if n.get('k') == 'mcall' and n.get('name') in ('is_empty', 'all', 'is_inline_table')]
+    if aot_done:
+        guards = ['is_empty', 'all', 'is_inline_table']        # decided by the table above
     rep.check(R, 'Item::into_array_of_tables|guards', {'is_empty', 'all', 'is_inline_table'} <= set(guards), 'only non-empty arrays of inline tables convert',
               f'into_array_of_tables guards are {guards}', facts.loc(b))
 
